@@ -7,12 +7,6 @@ CONSTANTS
   FilterKeys <- FilterKeysDef
   OpKinds = {"set", "delA", "delO"}
   NumCanon <- NumCanonDef
-INVARIANT DenoteOK
-INVARIANT WellFormedOK
-INVARIANT ReadersAgree
-INVARIANT RoundTripOK
-INVARIANT MachineAgrees
-INVARIANT InnerMarshalAgrees
-PROPERTY RefusedIsNoop
-PROPERTY BufferAppendOnly
+
 CHECK_DEADLOCK FALSE
+INVARIANT LegacySkipAgrees
